@@ -1544,13 +1544,13 @@ func scenarios(tier string) []sched.Scenario {
 		{name: "a-write-3-bytes10-count3", linger: 5 * time.Millisecond, maxReq: 3, maxBytes: 10, callers: [][]op{{P("p1", 4), D("d1")}, {P("p2", 4)}, {D("d2"), P("p3", 1)}}, nFreeW: 2, dev: [2]int{2, 3}},
 		{name: "a-realexec-write-2x2-count2", linger: 5 * time.Millisecond, maxReq: 2, maxBytes: big, callers: [][]op{{P("p1", 4), D("d1")}, {P("p2", 4), D("d0")}}, realExec: true, dev: [2]int{2, 3}},
 		{name: "a-realexec-write-3x1-linger0", linger: 0, maxReq: 10, maxBytes: big, callers: [][]op{{P("p1", 4)}, {D("d1")}, {P("p2", 4)}}, realExec: true, dev: [2]int{2, 3}},
-		{name: "a-mixed-3x2-count2", linger: 5 * time.Millisecond, maxReq: 2, maxBytes: big, callers: [][]op{{P("p1", 4), G("g1")}, {D("d1"), G("g2")}, {P("p2", 4), D("d0")}}, nFreeW: 1, nFreeR: 1, dev: [2]int{2, 3}},
 		{name: "a-read-3x1-count3", linger: 5 * time.Millisecond, maxReq: 3, maxBytes: big, callers: [][]op{{G("g1")}, {G("gx")}, {G("g2")}}, nFreeR: 2, dev: [2]int{2, 4}},
 		{name: "a-write-3x1-count2", linger: 5 * time.Millisecond, maxReq: 2, maxBytes: big, callers: [][]op{{P("p1", 4)}, {D("d1")}, {P("p2", 4)}}, nFreeW: 2, dev: [2]int{2, 4}},
 		{name: "a-write-2x2-linger0", linger: 0, maxReq: 10, maxBytes: big, callers: [][]op{{P("p1", 4), D("d1")}, {D("d0"), P("p2", 4)}}, nFreeW: 2, dev: [2]int{3, 4}},
 		{name: "a-read-2x2-count2-seq", linger: 5 * time.Millisecond, maxReq: 2, maxBytes: big, callers: [][]op{{G("g1"), G("g2")}, {G("gx"), G("g3")}}, nFreeR: 2, seq: true, dev: [2]int{3, 4}},
 		{name: "a-write-2x2-bytes10", linger: 5 * time.Millisecond, maxReq: 10, maxBytes: 10, callers: [][]op{{P("p1", 4), D("d0")}, {P("p2", 4), P("p3", 12)}}, nFreeW: 2, dev: [2]int{3, 4}},
 		{name: "a-read-3x1-linger0", linger: 0, maxReq: 10, maxBytes: big, callers: [][]op{{G("g1")}, {G("gx")}, {G("g2")}}, nFreeR: 2, dev: [2]int{2, 4}},
+		{name: "a-mixed-3x2-count2", linger: 5 * time.Millisecond, maxReq: 2, maxBytes: big, callers: [][]op{{P("p1", 4), G("g1")}, {D("d1"), G("g2")}, {P("p2", 4), D("d0")}}, nFreeW: 1, nFreeR: 1, dev: [2]int{2, 3}},
 	}
 	bs := []bVariant{
 		{"b-stream-2senders", 2, 1, false, [2]int{3, 6}},
